@@ -278,4 +278,26 @@ theorem blocked3_step (v : Variant) (s : S3 C R W D) (t : Tid) (hb : blocked3 s 
       have : s.rt.isEmpty = false := by simpa using hne
       simp [hst, this]
 
+/-- moving is real: a queued rt micro-step always runs … -/
+theorem rt_step_runs (v : Variant) (s : S3 C R W D) (t : Tid) (h : s.pend t ≠ []) :
+    (next3 ops v s (.rt t)).2 = .ran ∧ ((next3 ops v s (.rt t)).1.pend t).length + 1 = (s.pend t).length := by
+  simp only [next3, rtStep]
+  cases hp : s.pend t with
+  | nil => exact absurd hp h
+  | cons a q => cases a <;> simp
+
+/-- … and a thread inside a call that is not blocked (nothing queued) performs its lock micro-step -/
+theorem unblocked3_step (v : Variant) (s : S3 C R W D) (t : Tid) (i : Instr R W D) (rest : List (Instr R W D))
+    (hpe : s.pend t = []) (hp : (s.l2.thr t).prog = i :: rest) (hb : blocked3 s t = false) :
+    (next3 ops v s (.l2 (.step t))).2 ≠ .blocked := by
+  simp only [blocked3, hpe, List.isEmpty_nil, Bool.true_and, Bool.or_eq_false_iff] at hb
+  obtain ⟨hb2, hst⟩ := hb
+  have hne := unblocked_step ops s.l2 t i rest hp hb2
+  rw [hp] at hst
+  simp only [next3, hpe, ne_eq, not_true_eq_false, if_false, hp, hst]
+  simp only [Bool.false_eq_true, if_false]
+  split
+  · rename_i h; exact absurd h hne
+  · exact hne
+
 end Nomt.Locks3
